@@ -302,6 +302,38 @@ Theorem C16_gen_limited_encode :
 Proof. exact gen_v2_limited. Qed.
 Print Assumptions C16_gen_limited_encode.
 
+(* polling observer, one sampling run: the identifiers staged are those of the results whose eligibility test succeeded, said eligible, and whose detail could be read - the model's stage is the filter of the translated loop body *)
+Theorem C16_gen_sampling_stage :
+  forall rs se,
+  stage rs = map (fun r => snd (r_key r))
+                 (filter (fun r => match g_v2_process_head_result (r_eligerr r) (r_elig r) (r_deterr r) se with
+                                   | ([1], Fall) => true
+                                   | _ => false
+                                   end) rs).
+Proof. exact gen_v2_stage. Qed.
+Print Assumptions C16_gen_sampling_stage.
+
+(* polling observer: the stager is advanced only when the registry answered, some keys were sampled and the runner returned *)
+Theorem C16_gen_sampling_advances_stager :
+  forall a b c,
+  In 7 (fst (g_v2_process_head a b c)) <-> (a = false /\ b = false /\ c = false).
+Proof. exact gen_v2_process_head. Qed.
+Print Assumptions C16_gen_sampling_advances_stager.
+
+(* stager: advancing copies the prepared block and identifiers and clears the preparation; preparing appends *)
+Theorem C16_gen_stager :
+  g_v2_stager_advance = ([1; 2; 3; 4], Fall) /\
+  (forall f, last (fst (g_v2_stager_prepare_id f)) 0 = 2).
+Proof. exact gen_v2_stager. Qed.
+Print Assumptions C16_gen_stager.
+
+(* sampling: nothing when there are no keys or the ratio gives none, otherwise a prefix of the shuffled keys *)
+Theorem C16_gen_sample_slice :
+  forall n size,
+  g_v2_shuffle_slice n size = if (n =? 0) || (size <=? 0) then ([1], RetO 0) else ([1], RetO 1).
+Proof. exact gen_v2_shuffle_slice. Qed.
+Print Assumptions C16_gen_sample_slice.
+
 End GenTie.
 
 (* Non-vacuity: 2f+1 = 5 observations, two of them faulty (0 and 2^64-1), one undecodable and one
